@@ -364,6 +364,11 @@ func (p *Parser) parseExpression(precedence ast.Priority) ast.Node {
 		return nil
 	}
 	leftExp := prefix()
+	if c, isComment := leftExp.(*ast.Comment); isComment && c.Type() == token.LINECOMMENT {
+		// A line comment ends with its line and is complete: an operator starting the next line (-x, [0], (y))
+		// begins a new expression, it doesn't take the comment as its left operand.
+		return leftExp
+	}
 	if p.peekTokenIs(token.LAMBDA) && precedence == ast.LAMBDA { // allow lambda chaining without parentheses in input.
 		p.nextToken()
 		return p.parseLambdaMulti(leftExp)
